@@ -50,6 +50,8 @@ def plan(tier, seed):
             cases.append({"file": e["file"], "fmt": fmt, "explicit": e["explicit"], "seed": seed,
                           "ncut": 80 if tier == "quick" else 400, "nbyte": 15 if tier == "quick" else 50,
                           "nmut": 120 if tier == "quick" else 400})
+    # the repository's own test-suite as a workload under monitor M9 (vf/mon/pytest_plugin.py)
+    cases.append({"kind": "suite", "tier": tier, "timeout": 3300})
     return cases
 
 
@@ -299,6 +301,10 @@ def mutations(rng, lines, n):
 
 
 def run_case(case):
+    if case.get("kind") == "suite":
+        from .. import suite
+
+        return suite.case(['loaded-shapes', 'file-closed'], case["tier"])
     rng = rng_for(7, case["seed"], sum(map(ord, case["file"])))
     root = tempfile.mkdtemp(prefix="vf_c07_")
     feats = []
@@ -373,4 +379,4 @@ def finish(results, tier):
             tot[k] = tot.get(k, 0) + v
     if tot.get("next_calls", 0) == 0:
         return {"inconclusive": "the counting LineIterator was never used (hook not bound)"}
-    return {"formats_covered": sorted({r["sample"]["fmt"] for r in results if r.get("sample")})}
+    return {"formats_covered": sorted({r["sample"]["fmt"] for r in results if r.get("sample") and "fmt" in r["sample"]})}
